@@ -63,6 +63,10 @@ def coq_build(clean=False, timeout=3000):
         err = translate_schemas.regenerate()          # Model/Schemas.v follows /repo's current source
         if err:
             log += "translate_schemas: " + err + "\n"
+        from . import translate_units
+        err = translate_units.regenerate()            # Model/UnitTable.v likewise
+        if err:
+            log += "translate_units: " + err + "\n"
         mk = COQ / "Makefile"
         if clean and mk.exists():
             subprocess.run(["make", "clean"], cwd=COQ, stdout=subprocess.DEVNULL, stderr=subprocess.DEVNULL)
